@@ -9,6 +9,7 @@ package main
 import (
 	"bytes"
 	"context"
+	"encoding/binary"
 	"errors"
 	"fmt"
 	"io"
@@ -138,14 +139,46 @@ func srCases(nchunks, nsamples int) []srCase {
 	docs, _ := walkDocs(base)
 	var cs []srCase
 	cs = append(cs, srCase{"good", 0, func() io.Reader { return bytes.NewReader(base) }, srAbstract(base, -1, -1, false), false})
-	for k := 0; k < nchunks; k++ {
-		bad := withPayload(base, k, func(p []byte) []byte {
+	// three ways of cutting a chunk's payload short: inside the reference document; exactly behind the reference
+	// document (the two count words are missing: the decoder's read meets a bare end of input); exactly behind a zero
+	// delta whose run length is missing (again a bare end of input, in the middle of the delta section)
+	cuts := []func(p []byte) []byte{
+		func(p []byte) []byte {
 			if len(p) > 7 {
 				return p[:7]
 			}
 			return p[:len(p)/2]
-		})
-		cs = append(cs, srCase{"corrupt", k + 1, func() io.Reader { return bytes.NewReader(bad) }, srAbstract(base, k, -1, false), true})
+		},
+		func(p []byte) []byte {
+			if len(p) >= 4 {
+				if rl := int(binary.LittleEndian.Uint32(p)); rl >= 5 && rl <= len(p) {
+					return p[:rl]
+				}
+			}
+			return p[:len(p)/2]
+		},
+		func(p []byte) []byte {
+			if len(p) >= 4 {
+				if rl := int(binary.LittleEndian.Uint32(p)); rl >= 5 && rl+8 <= len(p) {
+					for k := rl + 8; k < len(p); k++ {
+						if p[k] == 0 && (k == rl+8 || p[k-1]&0x80 == 0) {
+							return p[:k+1]
+						}
+					}
+					return p[:rl]
+				}
+			}
+			return p[:len(p)/2]
+		},
+	}
+	for k := 0; k < nchunks; k++ {
+		for v, cut := range cuts {
+			if v != k%len(cuts) && !(k == 0 && nchunks <= 2) {
+				continue
+			}
+			bad := withPayload(base, k, cut)
+			cs = append(cs, srCase{"corrupt", k + 1, func() io.Reader { return bytes.NewReader(bad) }, srAbstract(base, k, -1, false), true})
+		}
 	}
 	off := 0
 	for i, d := range docs {
@@ -243,8 +276,17 @@ func c05Run(entry string, cs srCase, label string, occ int, settle time.Duration
 	ctx, cancel := context.WithCancel(context.Background())
 	it := srOpen(entry, ctx, cs.mk())
 	done := make(chan struct{})
+	// half of the runs use a consumer that also looks at Err() while it iterates (a common pattern: stop early on
+	// error); asking must not change what is reported at the end
+	poll := occ%2 == 1
+	if perturb != nil {
+		poll = perturb.intn(2) == 0
+	}
 	go func() {
 		for it.Next() {
+			if poll {
+				_ = it.Err()
+			}
 		}
 		close(done)
 	}()
